@@ -625,6 +625,7 @@ pub fn run_thr(trace: &Trace) -> (RunReport, Vec<u8>) {
         }
     }
     rep.state_hash = shash.0;
+    rep.states = vec![shash.0];
     rep.sim_time_ns = now;
     finish_flags(&mut rep, &shared, &hist, &srep.schedule);
     (rep, srep.schedule)
